@@ -29,7 +29,7 @@ SPEC = dict(
                  "(documented contract: a close wakes every parked waiter), never a late data/PeerClosed result as such"],
     units=[
         pbt("c03_syncrecv", ["harness/c03_syncrecv.cpp", "harness/c03_sched.cpp"], dict(
-            seq=P(7000, 120000, 4, 16),
+            seq=P(7000, 60000, 4, 16),
             conc=P(1000, 15000, 4, 16, extra=["--shrink-seconds", "30"]),
             e2e=P(600, 5000, 2, 8, extra=["--shrink-seconds", "30"]),
         )),
